@@ -267,23 +267,22 @@ def ofCyCount (q : Cy.Query) : Option (List String) :=
 def countWhere (km : KindMap) (ks : List String) : Option (Option Sql.Expr) :=
   if ks.isEmpty then some none else (C01.S1.Pred.tr km (.kinds ks)).map some
 
-/-- THE MODEL TRANSLATOR WITH the optimiser, on the proved fragment: stages S1 and S2a of C01 (`tr2`: there no rule and no lowering changes
-the statement) and the count fragment, where the count-store fast path fires; `none` elsewhere -/
-def trOpt (km : KindMap) (q : Cy.Query) : Option (Sql.Stmt × List (String × Val)) :=
-  match C01.tr2 km q with
+/-- THE MODEL TRANSLATOR on the proved fragment, parametrised by the hop's join-order choice `flipOf` and by whether the count-store fast
+path is on: stages S1 and S2 of C01 (`tr2F flipOf`), and the count fragment; `none` elsewhere.
+The optimised translator (`Translate`) and the unoptimised one (`TranslateUnoptimized`) differ on this fragment in exactly two ways: the
+lowering TraversalDirectionSelection may pick the other join order for a hop, and CountStoreFastPath replaces the count statement. -/
+def trVariant (flipOf : C01.S2.Query → Bool) (fastPath : Bool) (km : KindMap) (q : Cy.Query) : Option (Sql.Stmt × List (String × Val)) :=
+  match C01.tr2F flipOf km q with
   | some r => some r
   | none =>
     match ofCyCount q with
-    | some ks => (countWhere km ks).map (fun w => (countOptW w, []))
+    | some ks => (countWhere km ks).map (fun w => (if fastPath then countOptW w else countUnoptW w, []))
     | none => none
 
-/-- THE MODEL TRANSLATOR WITHOUT the optimiser (what `TranslateUnoptimized` emits) on the same fragment -/
-def trUnopt (km : KindMap) (q : Cy.Query) : Option (Sql.Stmt × List (String × Val)) :=
-  match C01.tr2 km q with
-  | some r => some r
-  | none =>
-    match ofCyCount q with
-    | some ks => (countWhere km ks).map (fun w => (countUnoptW w, []))
-    | none => none
+/-- with the optimiser: the model's approximation of the direction choice (see `C01.tr2F`), fast path on -/
+def trOpt (km : KindMap) (q : Cy.Query) : Option (Sql.Stmt × List (String × Val)) := trVariant C01.flipOpt true km q
+
+/-- without the optimiser -/
+def trUnopt (km : KindMap) (q : Cy.Query) : Option (Sql.Stmt × List (String × Val)) := trVariant C01.flipUnopt false km q
 
 end Dawgs.C02
